@@ -491,6 +491,10 @@ func (w *worker[T, JobType]) goEventLoop() {
 				// either they see this reservation or we see their status change.
 				if !w.IsRunning() {
 					w.releaseWaiters(w.curProcessing.Add(^uint32(0)))
+					// A Restart may have started the next run while this slot was still
+					// reserved: its event loop found no free slot and went back to sleep,
+					// and no completion will wake it.
+					w.notifyToPullNextJobs()
 					break
 				}
 
